@@ -1,5 +1,6 @@
 """C19 — v1-to-v2 migration rewrites imports and nothing else."""
 import ast
+import os
 import importlib
 
 from .. import encode, model, runner, sexp
@@ -145,6 +146,90 @@ def enc_module(src):
     return ["migrate", encode.enc_bytes(src.encode()), stmts]
 
 
+def file_level(ctx):
+    """the file / directory entry points (process_file, migrate_v1_to_v2): modules on disk in several encodings and line-end
+    conventions; afterwards every file is either byte-for-byte what it was, or — decoded the way Python itself decodes
+    it (BOM / coding cookie) — a valid module with the other statements unchanged and the imports bound as expected"""
+    import contextlib
+    import io
+    import shutil
+    import tempfile
+    from d42.migration.migrate_v1_to_v2 import migrate_v1_to_v2
+    body = ("from district42 import schema\nfrom valera import validate, unmapped_name as u\n"
+            "NAME = 'caf\u00e9 \u00fc'  # comment \u00e9\n\ndef f():\n    return 'Sch\u00e9mas'\n")
+    ident = "from district42 import schema\ncaf\u00e9 = 1\nprint(caf\u00e9)\n"
+    files = {
+        "plain_utf8.py": body.encode("utf-8"),
+        "ascii.py": b"import os\nfrom district42 import schema as s\nx = 1\n",
+        "crlf.py": body.replace("\n", "\r\n").encode("utf-8"),
+        "no_newline_at_end.py": b"from valera import validate",
+        "bom_utf8.py": b"\xef\xbb\xbf" + body.encode("utf-8"),
+        "cookie_utf8.py": b"# -*- coding: utf-8 -*-\n" + body.encode("utf-8"),
+        "cookie_latin1.py": b"# -*- coding: latin-1 -*-\n" + body.encode("latin-1"),
+        "cookie_latin1_ident.py": b"# coding: iso-8859-1\n" + ident.encode("latin-1"),
+        "cookie_cp1251.py": "# coding: cp1251\nfrom district42 import schema\nS = '\u043f\u0440\u0438\u0432\u0435\u0442'\n".encode("cp1251"),
+        "nothing_to_do.py": "x = 'caf\u00e9'\n".encode("utf-8"),
+        "pkg/__init__.py": b"from .valera import validate\nfrom revolt import substitute\n",
+        "pkg/deep/mod.py": b"from district42.types import IntSchema, StrSchema as S\ny = 2\n",
+        ".hidden/skipped.py": b"from district42 import schema\n",
+        "__pycache__/skipped.py": b"from district42 import schema\n",
+        "not_python.txt": b"from district42 import schema\n",
+    }
+    for _ in range(ctx.n(25, 200)):
+        src, _m = gen_module(ctx.rnd)
+        try:
+            ast.parse(src)
+        except SyntaxError:
+            continue
+        enc = ctx.rnd.choice(["utf-8", "utf-8", "latin-1", "utf-16-cookie-less-skip"])
+        if enc == "latin-1":
+            try:
+                files["gen_%d_latin1.py" % len(files)] = b"# -*- coding: latin-1 -*-\n" + src.encode("latin-1")
+            except UnicodeEncodeError:
+                pass
+        elif enc == "utf-8":
+            files["gen_%d.py" % len(files)] = src.encode("utf-8")
+    root = tempfile.mkdtemp(prefix="d42-c19-")
+    try:
+        for rel, data in files.items():
+            path = os.path.join(root, rel)
+            os.makedirs(os.path.dirname(path), exist_ok=True)
+            with open(path, "wb") as f:
+                f.write(data)
+        buf = io.StringIO()
+        try:
+            with contextlib.redirect_stdout(buf):
+                migrate_v1_to_v2(root)
+        except Exception as e:  # noqa: BLE001
+            ctx.violation("migrate_v1_to_v2 raised " + type(e).__name__, exception=repr(e))
+        for rel, data in files.items():
+            ctx.count("file_level_files")
+            with open(os.path.join(root, rel), "rb") as f:
+                out = f.read()
+            if out == data:
+                ctx.count("file_level_unchanged")
+                continue
+            info = dict(file=rel, before=data.decode("latin-1")[:400], after=out.decode("latin-1")[:400])
+            if rel.startswith((".hidden", "__pycache__")) or not rel.endswith(".py"):
+                ctx.violation("a file the migration must skip was rewritten", **info)
+                continue
+            try:
+                before, after = ast.parse(data), ast.parse(out)       # bytes: Python's own decoding rules
+                compile(out, rel, "exec")
+            except (SyntaxError, ValueError) as e:
+                ctx.violation("a migrated file is not valid Python any more", error=str(e), **info)
+                continue
+            ctx.count("file_level_rewritten")
+            ob = [ast.dump(nd) for nd in before.body if not isinstance(nd, ast.ImportFrom)]
+            oa = [ast.dump(nd) for nd in after.body if not isinstance(nd, ast.ImportFrom)]
+            if ob != oa:
+                ctx.violation("a non-import statement of a migrated file was changed, lost or reordered", **info)
+            elif sorted(expected_imports(before)) != sorted(imports_of(after)):
+                ctx.violation("imports of a migrated file do not bind the same local names to the v2 counterparts", **info)
+    finally:
+        shutil.rmtree(root, ignore_errors=True)
+
+
 def _is_space(c):
     return c in (32, 9, 10, 13, 11, 12)
 
@@ -185,6 +270,7 @@ def run(ctx):
     from .. import extract_migration
     extract_migration.run()
     runner.prove(ctx, MODULE, THEOREMS, FILES)
+    file_level(ctx)
     # part 1 on the real code as well: every target importable, same name
     for old_mod, names in mapping.items():
         for n, (new_mod, new_name) in names.items():
